@@ -735,4 +735,168 @@ theorem fmtDims_eq (ha va : Option String) (width height cols lines : Nat) (f : 
     simp [hW, hH, a1, a2, b1, b2, HAlign.idx, VAlign.idx, bind, Except.bind, pure, Except.pure]
   all_goals (first | omega | (constructor <;> omega) | (refine ⟨?_, ?_, ?_, ?_⟩ <;> omega) | skip)
 
+/-! ## `ImageIterator`: the cache never serves a frame formatted for another size -/
+
+/-- every cache entry is a frame formatted, at an earlier `next()` of the same frame number, with
+    the size the image had then -/
+def CacheInv (f : Fmt) (nFrames : Nat) (all : List IterStep) (k : Nat) (cache : Cache) : Prop :=
+  ∀ n fr sz, cache[n]? = some (some (fr, sz)) →
+    ∃ j sj, j < k ∧ j % nFrames = n ∧ all[j]? = some sj ∧ (sj.cols, sj.lines) = sz ∧ fr = f.frame sj
+
+theorem CacheInv.mono {f : Fmt} {nFrames : Nat} {all : List IterStep} {k : Nat} {cache : Cache}
+    (h : CacheInv f nFrames all k cache) : CacheInv f nFrames all (k + 1) cache := by
+  intro n fr sz hc
+  obtain ⟨j, sj, h1, h2⟩ := h n fr sz hc
+  exact ⟨j, sj, by omega, h2⟩
+
+theorem CacheInv.set {f : Fmt} {nFrames : Nat} {all : List IterStep} {k : Nat} {cache : Cache} {s : IterStep}
+    (h : CacheInv f nFrames all k cache) (hs : all[k]? = some s) :
+    CacheInv f nFrames all (k + 1) (cache.set (k % nFrames) (some (f.frame s, (s.cols, s.lines)))) := by
+  intro n fr sz hc
+  rw [List.getElem?_set] at hc
+  by_cases hn : k % nFrames = n
+  · simp only [hn, if_true] at hc
+    split at hc
+    · injection hc with hc; injection hc with hc
+      simp only [Prod.mk.injEq] at hc
+      exact ⟨k, s, by omega, hn, hs, hc.2, hc.1.symm⟩
+    · cases hc
+  · simp only [hn, if_false] at hc
+    exact h.mono n fr sz hc
+
+theorem iterNext_spec (f : Fmt) (cached : Bool) (nFrames : Nat) (all : List IterStep) (k : Nat) (cache : Cache)
+    (s : IterStep) (hinv : CacheInv f nFrames all k cache) (hs : all[k]? = some s) :
+    CacheInv f nFrames all (k + 1) (iterNext f cached nFrames k cache s).1 ∧
+    ∃ j sj, j ≤ k ∧ j % nFrames = k % nFrames ∧ all[j]? = some sj ∧ (sj.cols, sj.lines) = (s.cols, s.lines) ∧
+      (iterNext f cached nFrames k cache s).2 = f.frame sj := by
+  have fresh : ∃ j sj, j ≤ k ∧ j % nFrames = k % nFrames ∧ all[j]? = some sj ∧ (sj.cols, sj.lines) = (s.cols, s.lines) ∧
+      f.frame s = f.frame sj := ⟨k, s, Nat.le_refl _, rfl, hs, rfl, rfl⟩
+  unfold iterNext
+  simp only
+  split
+  · split
+    · rename_i frame size hc
+      split
+      · exact ⟨hinv.set hs, fresh⟩
+      · rename_i hne
+        have hsz : (s.cols, s.lines) = size := by simpa using hne
+        obtain ⟨j, sj, h1, h2, h3, h4, h5⟩ := hinv _ frame size hc
+        exact ⟨hinv.mono, j, sj, by omega, h2, h3, by rw [h4, hsz], h5⟩
+    · exact ⟨hinv.set hs, fresh⟩
+  · refine ⟨?_, fresh⟩
+    split
+    · exact hinv.set hs
+    · exact hinv.mono
+
+theorem iterGo_spec (f : Fmt) (rep : Int) (cached : Bool) (nFrames : Nat) (all : List IterStep) :
+    ∀ (steps : List IterStep) (k : Nat) (cache : Cache), steps = all.drop k → CacheInv f nFrames all k cache →
+      ∀ i fr, (iterGo f rep cached nFrames k cache steps)[i]? = some (some fr) →
+        ∃ j sj sk, j ≤ k + i ∧ j % nFrames = (k + i) % nFrames ∧ all[j]? = some sj ∧ all[k + i]? = some sk ∧
+          (sj.cols, sj.lines) = (sk.cols, sk.lines) ∧ fr = f.frame sj := by
+  intro steps
+  induction steps with
+  | nil => intro k cache _ _ i fr h; simp [iterGo] at h
+  | cons s rest ih =>
+    intro k cache hdrop hinv i fr h
+    have hs : all[k]? = some s := by
+      have := congrArg (fun l => l[0]?) hdrop
+      simpa using this.symm
+    have hrest : rest = all.drop (k + 1) := by
+      have := congrArg List.tail hdrop
+      simpa using this
+    unfold iterGo at h
+    split at h
+    · cases i with
+      | zero => simp at h
+      | succ i =>
+        simp only [List.getElem?_cons_succ] at h
+        obtain ⟨j, sj, sk, h1, h2, h3, h4, h5⟩ := ih (k + 1) cache hrest hinv.mono i fr h
+        exact ⟨j, sj, sk, by omega, by rw [h2]; congr 1; omega, h3, by rw [← h4]; congr 1; omega, h5⟩
+    · obtain ⟨hinv', j0, sj0, g1, g2, g3, g4, g5⟩ := iterNext_spec f cached nFrames all k cache s hinv hs
+      cases i with
+      | zero =>
+        simp only [List.getElem?_cons_zero, Option.some.injEq] at h
+        exact ⟨j0, sj0, s, by omega, by simpa using g2, g3, by simpa using hs, g4, by rw [← h, g5]⟩
+      | succ i =>
+        simp only [List.getElem?_cons_succ] at h
+        obtain ⟨j, sj, sk, h1, h2, h3, h4, h5⟩ := ih (k + 1) _ hrest hinv' i fr h
+        exact ⟨j, sj, sk, by omega, by rw [h2]; congr 1; omega, h3, by rw [← h4]; congr 1; omega, h5⟩
+
+theorem cacheInv_init (f : Fmt) (nFrames : Nat) (all : List IterStep) :
+    CacheInv f nFrames all 0 (List.replicate nFrames none) := by
+  intro n fr sz hc
+  rw [List.getElem?_replicate] at hc
+  split at hc <;> simp at hc
+
+
+theorem fmtDims_sum (ha va : Option String) (width height cols lines : Nat) :
+    (fmtDims ha va width height cols lines).1 + cols + (fmtDims ha va width height cols lines).2.2.1 = max width cols ∧
+    (fmtDims ha va width height cols lines).2.1 + lines + (fmtDims ha va width height cols lines).2.2.2 = max height lines := by
+  unfold fmtDims
+  by_cases hW : width > cols <;> by_cases hH : height > lines <;>
+    by_cases a1 : ha = some "<" <;> by_cases a2 : ha = some ">" <;>
+    by_cases b1 : va = some "^" <;> by_cases b2 : va = some "_" <;>
+    simp [hW, hH, a1, a2, b1, b2] <;> omega
+
+/-! ## animated `draw()`: every frame is drawn over the previous one -/
+
+/-- a formatted frame: drawn from the top-left corner of the `w × h` box at column 0 it is a `BlockEffect` -/
+def FrameOK (K : TermKind → Prop) (w h : Nat) (fr : List Tok) : Prop :=
+  ∀ (t : Term) (r0 : Nat), K t.kind → t.lm = 0 → Ready t r0 0 w h 0 → BlockEffect t (t.run fr) r0 0 w h .keepsDefault
+
+theorem back_to_first_line (t : Term) (r0 w h : Nat) (hrow : t.row = r0 + h - 1) (hfit : w ≤ t.W)
+    (hvt : t.top ≤ r0) (hvb : r0 + h ≤ t.top + t.H) (hh : 0 < h) (hw : 0 < w) :
+    let t' := t.run ([Tok.cr] ++ cursorUp ((h : Int) - 1))
+    Ready t' r0 0 w h 0 ∧ Frame t t' ∧ t'.log = t.log ∧ t'.fg = t.fg ∧ t'.bg = t.bg := by
+  intro t'
+  by_cases h1 : h = 1
+  · subst h1
+    have : t' = { t with col := 0, pw := false } := by simp [t', cursorUp, Term.run, step]
+    rw [this]
+    exact ⟨⟨by simp; omega, rfl, rfl, by simpa using hfit, hvt, hvb, hh, hw⟩, ⟨rfl, rfl, rfl, rfl, rfl, rfl, rfl, rfl⟩, rfl, rfl, rfl⟩
+  · have hpos : (h : Int) - 1 > 0 := by omega
+    have hn : ((h : Int) - 1).toNat = h - 1 := by omega
+    have hp : param (h - 1) = h - 1 := param_pos (by omega)
+    have hlt : (1 : Int) < (h : Int) := by omega
+    have : t' = { t with col := 0, pw := false, row := max t.top (t.row - (h - 1)) } := by
+      simp [t', cursorUp, hlt, hn, Term.run, step, hp]
+    rw [this]
+    refine ⟨⟨?_, rfl, rfl, by simpa using hfit, hvt, hvb, hh, hw⟩, ⟨rfl, rfl, rfl, rfl, rfl, rfl, rfl, rfl⟩, rfl, rfl, rfl⟩
+    show max t.top (t.row - (h - 1)) = r0 + 0
+    omega
+
+/-- what the frames after the first do, starting at the end of a frame -/
+theorem later_frames (K : TermKind → Prop) (w h : Nat) (hh : 0 < h) (hw : 0 < w) :
+    ∀ (rest : List (List Tok)), (∀ fr ∈ rest, FrameOK K w h fr) →
+    ∀ (t : Term) (r0 : Nat), K t.kind → t.lm = 0 → t.row = r0 + h - 1 → w ≤ t.W → t.top ≤ r0 → r0 + h ≤ t.top + t.H →
+      let t' := t.run (rest.map fun fr => [Tok.cr] ++ cursorUp ((h : Int) - 1) ++ fr).flatten
+      Frame t t' ∧ t'.row = r0 + h - 1 ∧ ((t.fg = none ∧ t.bg = none) → (t'.fg = none ∧ t'.bg = none)) ∧
+        ∃ new, t'.log = new ++ t.log ∧ ∀ wr ∈ new, InRect r0 0 w h wr := by
+  intro rest
+  induction rest with
+  | nil =>
+    intro _ t r0 _ _ hrow _ _ _
+    exact ⟨Frame.refl t, hrow, fun h => h, [], rfl, by simp⟩
+  | cons fr rest ih =>
+    intro hok t r0 hK hlm hrow hfit hvt hvb
+    simp only [List.map_cons, List.flatten_cons]
+    rw [Term.run_append, Term.run_append]
+    obtain ⟨hR1, f1, l1, fg1, bg1⟩ := back_to_first_line t r0 w h hrow hfit hvt hvb hh hw
+    generalize t.run ([Tok.cr] ++ cursorUp ((h : Int) - 1)) = t1 at hR1 f1 l1 fg1 bg1
+    have e2 := hok fr (by simp) t1 r0 (by rw [f1.kind]; exact hK) (by rw [f1.lm]; exact hlm) hR1
+    generalize t1.run fr = t2 at e2
+    have f2 := e2.frame
+    have := ih (fun fr' h' => hok fr' (by simp [h'])) t2 r0 (by rw [f2.kind, f1.kind]; exact hK)
+      (by rw [f2.lm, f1.lm]; exact hlm) e2.row (by rw [f2.W, f1.W]; exact hfit) (by rw [f2.top, f1.top]; exact hvt)
+      (by rw [f2.top, f2.H, f1.top, f1.H]; exact hvb)
+    obtain ⟨f3, r3, s3, new3, hn3, hin3⟩ := this
+    obtain ⟨new2, hn2, hin2, _⟩ := e2.log
+    refine ⟨f1.trans (f2.trans f3), r3, ?_, new3 ++ new2, by rw [hn3, hn2, l1, List.append_assoc], ?_⟩
+    · intro hd
+      exact s3 (e2.sgr (by rw [fg1, bg1]; exact hd))
+    · intro wr hwr
+      rcases List.mem_append.mp hwr with h' | h'
+      · exact hin3 wr h'
+      · exact hin2 wr h'
+
 end TIV.C05
